@@ -87,6 +87,39 @@ def generate():
         ("muteForcesZero", 1 if re.search(r"p->channel_mute\[root\]\)\s*\{\s*vol\s*=\s*0\s*;", virt) else None,
          "1 when libxmp_virt_setvol has the shape `if (root < XMP_MAX_CHANNELS && p->channel_mute[root]) { vol = 0; }`"),
     ]
+    # volume translation table of process_volume (PTM, Archimedes Tracker, Coconizer):
+    #   finalvol = m->volbase == 0xff ? m->vol_table[finalvol >> A] << A : m->vol_table[finalvol >> B] << B;
+    # its place in the statement order (before the master / effects-mixer scaling) and the length of the installed tables
+    def table_len(path, name):
+        try:
+            src = open(os.path.join(vlib.REPO, "src", "loaders", path)).read()
+        except OSError:
+            return None
+        m = re.search(r"\b%s\s*\[\s*\]\s*=\s*\{(.*?)\}\s*;" % re.escape(name), src, re.S)
+        if not m:
+            return None
+        body = re.sub(r"/\*.*?\*/", " ", m.group(1), flags=re.S)
+        return len(re.findall(r"-?(?:0[xX][0-9a-fA-F]+|\d+)", body))
+    pv = re.search(r"static\s+void\s+process_volume\s*\(.*?\n\}\n", player, re.S)
+    pvb = pv.group(0) if pv else ""
+    mt = re.search(r"finalvol\s*=\s*m->volbase\s*==\s*0xff\s*\?\s*m->vol_table\s*\[\s*finalvol\s*>>\s*(\d+)\s*\]\s*<<\s*(\d+)\s*:"
+                   r"\s*m->vol_table\s*\[\s*finalvol\s*>>\s*(\d+)\s*\]\s*<<\s*(\d+)\s*;", pvb)
+    sh_ff = sh_el = order = None
+    if mt and mt.group(1) == mt.group(2) and mt.group(3) == mt.group(4):
+        sh_ff, sh_el = int(mt.group(1)), int(mt.group(3))
+        mm = re.search(r"finalvol\s*\*\s*p->master_vol", pvb)
+        ms = re.search(r"finalvol\s*\*\s*p->smix_vol", pvb)
+        if mm and ms and mt.start() < mm.start() and mt.start() < ms.start() and len(re.findall(r"vol_table\s*\[", pvb)) == 2:
+            order = 1
+    lens = [table_len("voltable.c", "libxmp_arch_vol_table"), table_len("ptm_load.c", "ptm_vol")]
+    shapes += [
+        ("volTableShiftFF", sh_ff, "shift of the volume-table lookup of process_volume when `m->volbase == 0xff`"),
+        ("volTableShiftElse", sh_el, "shift of the volume-table lookup otherwise"),
+        ("volTableBeforeMaster", order, "1 when the volume-table lookup of process_volume stands before both the master_vol and the smix_vol "
+                                        "scaling (and is the only use of m->vol_table there)"),
+        ("volTableLenArch", lens[0], "number of entries of libxmp_arch_vol_table[] (volbase 0xff formats: Archimedes Tracker, Coconizer)"),
+        ("volTableLenPtm", lens[1], "number of entries of ptm_vol[] (PTM)"),
+    ]
     # which voices does the master volume reach?  (finding F6)
     cond = re.search(r"if\s*\(([^{;]*?)\)\s*\{\s*finalvol\s*=\s*finalvol\s*\*\s*p->master_vol", player)
     ctext = re.sub(r"\s+", "", cond.group(1)) if cond else ""
